@@ -181,8 +181,106 @@ fn fail_raw(kind: &str, addr: usize, size: usize, align: usize, esize: usize, ea
     std::process::abort()
 }
 
+// ---------------------------------------------------------------------------
+// Low-address arena (x86_64 only).  Exported-resource representations are
+// pointers that the canonical ABI squeezes through an i32 (`rep as u32 as
+// usize` in the generated code).  On wasm32 that is the identity; to keep it
+// the identity in a 64-bit native run, small guest-owned blocks are served
+// from a MAP_32BIT mapping while `low32` mode is on (resource histories).
+#[cfg(all(target_arch = "x86_64", target_os = "linux", not(miri)))]
+mod low {
+    use std::sync::atomic::{AtomicBool, AtomicUsize, Ordering::SeqCst};
+    pub static ON: AtomicBool = AtomicBool::new(false);
+    static BASE: AtomicUsize = AtomicUsize::new(0);
+    static NEXT: AtomicUsize = AtomicUsize::new(0);
+    const LEN: usize = 64 << 20;
+    pub const MAX: usize = 128;
+    const CLASSES: usize = MAX / 16;
+    static mut FREE: [usize; CLASSES] = [0; CLASSES];
+    extern "C" {
+        fn mmap(addr: *mut u8, len: usize, prot: i32, flags: i32, fd: i32, off: i64) -> *mut u8;
+    }
+    pub fn contains(p: usize) -> bool {
+        let b = BASE.load(SeqCst);
+        b != 0 && p >= b && p < b + LEN
+    }
+    fn class(size: usize) -> usize {
+        (size.max(1) + 15) / 16 - 1
+    }
+    /// caller holds the allocator lock
+    pub unsafe fn alloc(size: usize, align: usize) -> *mut u8 {
+        if size > MAX || align > 16 {
+            return std::ptr::null_mut();
+        }
+        if BASE.load(SeqCst) == 0 {
+            // PROT_READ|PROT_WRITE, MAP_PRIVATE|MAP_ANONYMOUS|MAP_32BIT
+            let p = mmap(std::ptr::null_mut(), LEN, 3, 0x2 | 0x20 | 0x40, -1, 0);
+            if p as isize == -1 || p.is_null() || (p as usize) + LEN > (1usize << 32) {
+                return std::ptr::null_mut();
+            }
+            BASE.store(p as usize, SeqCst);
+            NEXT.store(p as usize, SeqCst);
+        }
+        let c = class(size);
+        #[allow(static_mut_refs)]
+        if FREE[c] != 0 {
+            let p = FREE[c];
+            FREE[c] = *(p as *const usize);
+            return p as *mut u8;
+        }
+        let sz = (c + 1) * 16;
+        let p = NEXT.load(SeqCst);
+        if p + sz > BASE.load(SeqCst) + LEN {
+            return std::ptr::null_mut();
+        }
+        NEXT.store(p + sz, SeqCst);
+        p as *mut u8
+    }
+    /// caller holds the allocator lock
+    pub unsafe fn free(p: *mut u8, size: usize) {
+        let c = class(size);
+        #[allow(static_mut_refs)]
+        {
+            *(p as *mut usize) = FREE[c];
+            FREE[c] = p as usize;
+        }
+    }
+}
+
+/// Serve small guest-owned blocks from addresses below 4 GiB (no-op on 32-bit
+/// targets and under Miri).  Returns whether such addresses are guaranteed.
+pub fn set_low32(on: bool) -> bool {
+    #[cfg(all(target_arch = "x86_64", target_os = "linux", not(miri)))]
+    {
+        low::ON.store(on, SeqCst);
+        return true;
+    }
+    #[allow(unreachable_code)]
+    {
+        let _ = on;
+        std::mem::size_of::<usize>() == 4
+    }
+}
+
 unsafe impl GlobalAlloc for Checking {
     unsafe fn alloc(&self, layout: Layout) -> *mut u8 {
+        #[cfg(all(target_arch = "x86_64", target_os = "linux", not(miri)))]
+        if low::ON.load(SeqCst) && TRACKING.load(SeqCst) && layout.size() <= low::MAX {
+            let p = {
+                let _g = lock();
+                low::alloc(layout.size(), layout.align())
+            };
+            if !p.is_null() {
+                let _g = lock();
+                #[allow(static_mut_refs)]
+                TABLE.insert(Entry { key: p as usize ^ MASK, size: layout.size(), meta: layout.align() << 1 | 1 });
+                drop(_g);
+                T_BLOCKS.fetch_add(1, SeqCst);
+                T_BYTES.fetch_add(layout.size() as isize, SeqCst);
+                T_ALLOCS.fetch_add(1, SeqCst);
+                return p;
+            }
+        }
         let p = System.alloc(layout);
         if p.is_null() {
             return p;
@@ -233,6 +331,12 @@ unsafe impl GlobalAlloc for Checking {
             T_BLOCKS.fetch_sub(1, SeqCst);
             T_BYTES.fetch_sub(e.size as isize, SeqCst);
             T_FREES.fetch_add(1, SeqCst);
+        }
+        #[cfg(all(target_arch = "x86_64", target_os = "linux", not(miri)))]
+        if low::contains(p as usize) {
+            let _g = lock();
+            low::free(p, layout.size());
+            return;
         }
         System.dealloc(p, layout);
     }
